@@ -18,7 +18,7 @@ RULE = (
     "the database cache and the pool: (category, type, unit, composing units/categories, joined exponents, deep "
     "copy of the composing map, caption, IsDerived, repr, hash) equals the tuple recorded at first sight. Per step: "
     "same request twice -> identical object; same resolution -> == and equal hash; different resolution -> !=; "
-    "copy/deepcopy -> identical; pickle -> equal; mutators raise ReadOnlyError/AttributeError. A Scalar / Array / FixedArray built on a pool quantity (constructor and CreateWithQuantity), its CreateCopy, copy and pickle hold a quantity equal to it with the same hash, caption and snapshot. Non-trivial = sequence "
+    "copy/deepcopy -> identical; pickle -> equal; mutators raise ReadOnlyError/AttributeError. A Scalar / Array / FixedArray built on a pool quantity (constructor and CreateWithQuantity), its CreateCopy, copy and pickle hold a quantity equal to it with the same hash, caption and snapshot. The list form with tuple entries also takes a caption. Non-trivial = sequence "
     "with a derived/empty/captioned quantity or a failed operation after >= 1 arithmetic step; key = the sequence."
 )
 ASSUMPTIONS = ["callers mutating the map returned by GetCategoryToUnitAndExps() themselves are outside 'public operations'"]
@@ -220,13 +220,13 @@ class Machine:
             if not items:
                 return
             cap = CAPTIONS[op[3] % len(CAPTIONS)] or None
-            form = op[2] % 5
+            form = op[2] % 6
             single = len(items) == 1 and list(items.values())[0][1] == 1
             if single:
                 (c, (u, e)), = items.items()
-                want = (((c, (u, 1)),), (cap or "") if form in (1, 2, 3) else "")
+                want = (((c, (u, 1)),), (cap or "") if form in (1, 2, 3, 5) else "")
             else:
-                want = (tuple((c, (u, e)) for c, (u, e) in items.items()), (cap or "") if form in (1, 2, 3) else "")
+                want = (tuple((c, (u, e)) for c, (u, e) in items.items()), (cap or "") if form in (1, 2, 3, 5) else "")
 
             def build(form):
                 if form == 0:
@@ -238,6 +238,9 @@ class Machine:
                     return Quantity.CreateDerived(dict((c, [u, e]) for c, (u, e) in items.items()), cap)
                 if form == 3:
                     return Quantity.CreateDerived(OrderedDict((c, [u, e]) for c, (u, e) in items.items()), cap)
+                if form == 5:
+                    # the list form with tuple entries (what GetComposingUnits() returns) and a caption
+                    return ObtainQuantity([(u, e) for c, (u, e) in items.items()], list(items.keys()), cap)
                 return ObtainQuantity(tuple((u, e) for c, (u, e) in items.items()), tuple(items.keys()))
 
             q1 = build(form)
